@@ -36,7 +36,7 @@ META = dict(
     design_ref='5/C10')
 
 ALL_KINDS = ['mod', 'pkg', 'pkga', 'ns', 'both', 'modns']
-ALL_SHAPES = ['one', 'onep', 'two', 'twop', 'nestafter', 'nestbefore']
+ALL_SHAPES = ['one', 'onep', 'two', 'twop', 'nestafter', 'nestbefore', 'rev']
 ATTRS = list(c10lib.ATTR_NAMES)
 
 CFG = '''INIT Init
@@ -244,14 +244,26 @@ def random_case(rng, max_nodes=30, max_depth=4):
         if p in nodes:
             continue
         k = rng.choice(ALL_KINDS if len(d) - 1 < max_depth - 1 else ['mod', 'mod', 'pkg', 'both'])
-        # name clashes across roots on purpose: mirror a node of the other root sometimes
         nodes[p] = k
         if c10lib.has_dir(k):
             dirs.append(list(p))
             dirs.append(list(p))     # deeper trees more likely
+        # name clashes across roots on purpose: mirror the node (and the directories above it) in the other root --
+        # same kind (namespace portions / same-named modules in both roots) or another one
+        if rng.random() < 0.4 and p[0] in ('rta', 'rtb'):
+            other = 'rtb' if p[0] == 'rta' else 'rta'
+            for j in range(2, len(p) + 1):
+                q = (other,) + p[1:j]
+                if q not in nodes:
+                    src_kind = nodes.get((p[0],) + p[1:j], k)
+                    nodes[q] = src_kind if rng.random() < 0.7 else rng.choice(ALL_KINDS if j < len(p) else ['mod', 'pkg', 'both', 'ns'])
+                    if j < len(p) and not c10lib.has_dir(nodes[q]):
+                        nodes[q] = src_kind
+                    if c10lib.has_dir(nodes[q]):
+                        dirs.append(list(q))
     nodelist = [{'p': list(p), 'k': k} for p, k in nodes.items()]
     subdirs = [list(p) for p, k in nodes.items() if c10lib.has_dir(k) and p[0] == 'rta']
-    shape = rng.choice(['one', 'two', 'two', 'rev', 'nest', 'nest3'])
+    shape = rng.choice(['one', 'two', 'two', 'rev', 'rev', 'nest', 'nest3'])
     pmode = False
     if shape == 'one':
         sp = [['rta']]
